@@ -146,6 +146,7 @@ func (r *Router) handleHTTPRequest(ctx *Context) {
 			if ret := recover(); ret != nil {
 				ctx.Set(CTXRecoverResult, ret)
 				r.OnPanic(ctx)
+				ctx.writer.ensureWriteHeader()
 			}
 		}()
 	}
